@@ -97,6 +97,7 @@ int CVodeGetCurrentTime(void *mem, realtype *t);
 // ---- scripting interface used by the C19 driver
 struct ShimOutcome { int flag; double frac; };   // flag >= 0: reach tout; flag < 0: stop at t + frac*(tout-t)
 void shim_set_script(const ShimOutcome *cv, int ncv, const int *reinit, int nreinit);
+int shim_cv_calls(void);      // number of CVode calls made since the script was installed
 void shim_trace(const char *fmt, ...);
 extern FILE *shim_trace_file;
 #endif
